@@ -146,8 +146,8 @@ var civilLunarCivil = ev.Register(&ev.P[dayCase]{
 // 2. lunar -> civil -> lunar on valid triples built from the year table
 
 type lunarCase struct {
-	Y, M, D   int
-	H, Mi, S  int
+	Y, M, D  int
+	H, Mi, S int
 }
 
 var lunarCivilLunar = ev.Register(&ev.P[lunarCase]{
